@@ -77,6 +77,13 @@ def run(tier):
     J("yyreject", groups(L, quick, rej, nul=True), knobs)
     J("REJECT", groups(L - 1, True, rej.replace("yyreject();", "REJECT;")), knobs)
     J("optreject", groups(L - 1, True, rej)[:60], knobs, options=["reject"])
+    # REJECT reachable only through a macro, so that only %option reject tells flex about it (round-5 seed C07-r5m3); the rule sets with
+    # variable head and trail come last in groups()
+    mg = groups(L - 1, True, rej.replace("yyreject();", "VF_REJ;"))
+    J("macro+optreject", mg[:40] + mg[-8:], knobs, options=["reject"], prologue="#define VF_REJ yyreject()")
+    # the same with the tables loaded from a file: the serialized accepting lists carry the trailing-context flags (round-5 seed C07-r5m1)
+    tg = groups(L - 1, True, rej)
+    J("tables-file", tg[:40] + tg[-8:], knobs, options=['tables-file="s.tables"'], cdefs=['VF_TABLES_FILE="s.tables"'])
     J("reentrant", groups(L - 1, True, H.ops_action([H.OP_REJECT], "R"), nul=True), knobs, api="R", options=["reentrant"])
     c99g = groups(L - 1, True, H.ops_action([H.OP_REJECT], "C99"), nul=True)
     J("c99", c99g[:80] + c99g[-5:], knobs, api="C99")
